@@ -73,7 +73,7 @@ func TestVerif_C18_consume(t *testing.T) {
 	class := make([]string, len(scs))
 	for i, sc := range scs {
 		o := c18Run(sc)
-		lines[i] = "c18consume " + uses[i] + " " + strings.TrimPrefix(sc.line("111"), "c18pipe ")
+		lines[i] = "c18consume " + uses[i] + " " + strings.TrimPrefix(sc.line(c18Repaired), "c18pipe ")
 		if o.resp == nil || o.crashed != "" || o.mustPanicked {
 			impl[i] = "nocall"
 			continue
